@@ -1102,7 +1102,9 @@ def run(ctx):
     if ctx.quick():
         n, max_n, max_m, n_wide, n_huge = 2400, 6, 6, 12, 3
     else:
-        n, max_n, max_m, n_wide, n_huge = 55000, 8, 8, 300, 30
+        # thorough runs are sharded over worker processes by ./check: each worker takes its share
+        nw = max(1, getattr(ctx, "worker", (0, 1))[1])
+        n, max_n, max_m, n_wide, n_huge = 72000 // nw, 8, 8, 320 // nw, max(2, 24 // nw)
     wide_cases(ctx, rng, n_wide, n_huge)
     for _ in range(n):
         one_random(ctx, rng, max_n, max_m)
